@@ -70,6 +70,97 @@ def gen_host(rng, e):
         mingpu=rng.choice([0, 0, 0, 1, 2]))
 
 
+# ---- sites: several hosts examined in order by launchers.py, and the ways of handing the alternatives to find()
+def approx_req(ts):
+    """what one alternative asks for -- used only to aim the generated hosts at the request (not by the oracle)"""
+    gpus, mem, cores, dur = [], 0, 0, 0
+    for t in ts:
+        if t["k"] == "duration":
+            dur = max(dur, t["n"] * DUNITS[t["u"]])
+        elif t["k"] == "cuda":
+            m = 0
+            for it in t["items"]:
+                m = bytes_of(it["n"], it["u"])
+            k = 1 if t["mult"] is None else max(1, t["mult"])
+            gpus += [m] * k
+        else:
+            m, c = 0, 1
+            for it in t["items"]:
+                if it["k"] == "mem":
+                    m = bytes_of(it["n"], it["u"])
+                else:
+                    c = it["n"]
+            mem, cores = max(mem, m), max(cores, c)
+    return dict(gpus=sorted(gpus), mem=mem, cores=cores, dur=dur)
+
+
+def at_least(rng, pool, x):
+    ok = [v for v in pool if v >= x]
+    return rng.choice(ok[:3]) if ok else x
+
+
+def gen_host_for(rng, r):
+    """a host that fits the alternative r (or just misses it)"""
+    h = dict(cuda=[dict(mem=at_least(rng, HOSTMEM, g), min=0) for g in r["gpus"]],
+             mem=at_least(rng, HOSTMEM, r["mem"]), cores=at_least(rng, [0, 1, 2, 4, 8, 16, 32], r["cores"]),
+             prio=rng.choice([0, 0, 1, 5, -3]),
+             maxdur=rng.choice([0, 0] + [d for d in (3600, 86400, 4 * 86400, 30 * 86400) if d >= r["dur"]]), mingpu=0)
+    for _ in range(rng.choice([0, 0, 0, 1, 2])):
+        h["cuda"].append(dict(mem=rng.choice(HOSTMEM[5:]), min=0))
+    h["cuda"].sort(key=lambda g: g["mem"])
+    miss = rng.random()
+    if miss < 0.12 and h["cuda"]:
+        h["cuda"].pop()
+    elif miss < 0.2:
+        h["mem"] = rng.choice(HOSTMEM[:4])
+    elif miss < 0.26:
+        h["maxdur"] = 3600
+    elif miss < 0.32:
+        h["mingpu"] = rng.choice([1, 2, 3])
+    return h
+
+
+def gen_hosts(rng, e):
+    rs = [approx_req(ts) for ts in e]
+    # small hosts tend to come first (the administrator lists the cheap partition first) but not always
+    hosts = [gen_host_for(rng, rng.choice(rs)) if rng.random() < 0.7 else gen_host(rng, e)
+             for _ in range(rng.choice([1, 2, 2, 3, 3, 4]))]
+    if rng.random() < 0.5:
+        hosts.sort(key=lambda h: (len(h["cuda"]), h["mem"]))
+    return hosts
+
+
+def gen_groups(rng, n):
+    """how the n alternatives are handed to LauncherRegistry.find: consecutive groups, each one string (alternatives
+    joined by |), simple objects, or one object built with |"""
+    form = rng.choice(["one-string", "strings", "objects", "union-object", "mixed", "mixed"])
+    if form == "one-string" or (form == "union-object" and n < 2):
+        return [dict(kind="str", n=n)]
+    if form == "strings":
+        return [dict(kind="str", n=1) for _ in range(n)]
+    if form == "objects":
+        return [dict(kind="obj", n=1) for _ in range(n)]
+    if form == "union-object":
+        return [dict(kind="union", n=n)]
+    out, left = [], n
+    while left:
+        k = rng.randint(1, left)
+        out.append(dict(kind=rng.choice(["str", "obj", "union"] if k >= 2 else ["str", "obj"]), n=k))
+        if out[-1]["kind"] == "obj":
+            out[-1]["n"] = k = 1
+        left -= k
+    return out
+
+
+def with_group_texts(rng, case):
+    i = 0
+    for g in case["groups"]:
+        if g["kind"] == "str":
+            g["text"] = print_expr(rng, case["expr"][i:i + g["n"]])
+        i += g["n"]
+    return case
+
+
 # ---- Gallina rendering
 def g_item(i):
     if i["k"] == "mem":
@@ -101,10 +192,20 @@ def g_case(c):
     e = glist(glist(g_term(t) for t in ts) for ts in c["expr"])
     parsed = "None" if a["parsed"] is None else f"(Some {glist(g_req(r) for r in a['parsed'])})"
     union = "None" if a["union"] is None else f"(Some ({gnat(max(a['union'][0], 0))}, {gz(a['union'][1])}))"
+    orunion = "None" if a["orunion"] is None else f"(Some ({gnat(max(a['orunion'][0], 0))}, {gz(a['orunion'][1])}))"
+    rg = a["reg"]
+    if rg["exc"] is not None or (rg["host"] is not None and rg["req"] is None):
+        reg = "None"          # it raised / the requirement that matched is not a simple requirement
+    elif rg["host"] is None:
+        reg = "(Some None)"
+    else:
+        reg = f"(Some (Some ({gnat(rg['host'])}, {g_req(rg['req'])})))"
     ans = (f"{{| a_parsed := {parsed}; a_prog := {glist(g_req(r) for r in a['prog'])}; "
            f"a_pure := {glist(gbool(b) for b in a['pure'])}; "
-           f"a_single := {glist(gopt(s, gz) for s in a['single'])}; a_union := {union} |}}")
-    return f"({e}, {g_host(c['host'])}, {ans})"
+           f"a_single := {glist(gopt(s, gz) for s in a['single'])}; a_union := {union}; "
+           f"a_orunion := {orunion}; a_reg := {reg} |}}")
+    groups = glist(f"({gbool(g['kind'] == 'union')}, {gnat(g['n'])})" for g in c["groups"])
+    return f"({e}, {g_host(c['host'])}, {glist(g_host(h) for h in c['hosts'])}, {groups}, {ans})"
 
 
 # ---- the property restated over implementation observables (independent of the model)
@@ -149,20 +250,92 @@ def oracle(c, case):
     if got != first:
         c.violation("C18:union-not-first", "RequirementUnion.match did not return the first matching alternative",
                     dict(expr=case["expr"], host=h, singles=a["single"], union=a["union"]))
-    # (3) operands unchanged by & and *
-    if not all(a["pure"]):
-        c.violation("C18:operand-mutated", "& or * altered one of its operands",
-                    dict(expr=case["expr"], pure=a["pure"]))
+    if a["orunion"] != a["union"] or (got is not None and got < 0):
+        c.violation("C18:or-union-differs", "a | b | ... does not answer with the first matching simple requirement "
+                    "as RequirementUnion(a, b, ...) does", dict(expr=case["expr"], host=h, singles=a["single"],
+                                                                 union=a["union"], orunion=a["orunion"]))
+    # (3) operands unchanged by & and * (and by |, match and find)
+    if not all(a["pure"]) or not a["pure_after"]:
+        c.violation("C18:operand-mutated", "&, * or | altered one of its operands",
+                    dict(expr=case["expr"], pure=a["pure"], pure_after=a["pure_after"]))
+    # (5) the registry: alternatives are tried in the order given, over all the hosts of launchers.py
+    oracle_registry(c, case)
     # (4) text means the same as the programmatic construction
     if a["parsed"] is None or [dict(r, gpu_extra=None) for r in a["parsed"]] != [dict(r, gpu_extra=None) for r in a["prog"]]:
         c.violation("C18:parse-differs", "parse(text) differs from the equivalent programmatic request",
                     dict(text=case["text"], parsed=a["parsed"], prog=a["prog"], exc=a.get("parse_exc")))
 
 
+def strip(r):
+    return None if r is None else {k: r[k] for k in ("gpus", "mem", "cores", "dur")}
+
+
+def expected_registry(case):
+    """first alternative, in the order given, that some host matches; on the first such host (the order in which
+    launchers.py examines its hosts).  grid = the implementation's own match() of every alternative on every host."""
+    for i, row in enumerate(case["ans"]["grid"]):
+        for j, s in enumerate(row):
+            if s is not None:
+                return i, j
+    return None
+
+
+def oracle_registry(c, case):
+    a, rg = case["ans"], case["ans"]["reg"]
+    hosts = case["hosts"]
+    data = dict(expr=case["expr"], host=case["host"], hosts=hosts, groups=case["groups"], text=case["text"],
+                grid=a["grid"], registry=rg)
+    union_object = any(g["kind"] == "union" for g in case["groups"])
+    sfx = ":union-object" if union_object else ""
+    # every match of the grid is sound as well
+    for i, row in enumerate(a["grid"]):
+        for j, s in enumerate(row):
+            if s is not None and not satisfies(a["prog"][i], hosts[j]):
+                c.violation("C18:match-unsound:site", "match() accepts a host of the site that does not satisfy the request",
+                            dict(data, alternative=i, host_index=j))
+    exp = expected_registry(case)
+    data["expected"] = None if exp is None else dict(alternative=exp[0], host=exp[1], request=a["prog"][exp[0]])
+    if rg["exc"] is not None:
+        c.violation("C18:registry-raises" + sfx, f"LauncherRegistry.find raises {rg['exc']}", data)
+        return
+    if rg["host"] is not None and rg["req"] is None:
+        c.violation("C18:registry-match-not-simple" + sfx,
+                    "the requirement reported as matched is not a simple requirement", data)
+        return
+    if rg["host"] is not None and not satisfies(rg["req"], hosts[rg["host"]]):
+        c.violation("C18:registry-unsound" + sfx, "the launcher found is for a host that does not satisfy the request", data)
+    got = None if rg["host"] is None else (rg["host"], strip(rg["req"]))
+    want = None if exp is None else (exp[1], strip(a["prog"][exp[0]]))
+    if got != want:
+        if want is not None and got is not None:
+            what = ("alternatives are not tried in the order given: an earlier alternative is satisfiable by a host of "
+                    "the site but the launcher is for a later alternative / another host")
+        elif got is None:
+            what = "no launcher although an alternative is satisfiable by a host of the site"
+        else:
+            what = "a launcher although no alternative matches any host of the site"
+        c.violation("C18:registry-order" + sfx, what, data)
+    if rg["host"] is not None and (rg["part"] != f"p{rg['host']}" or rg["gpus"] != len(rg["req"]["gpus"])):
+        c.violation("C18:registry-other-launcher", "find() does not return the launcher find_launcher built", data)
+
+
+def order_sensitive(case):
+    """would 'each host, then each alternative' give another answer than 'each alternative, then each host'?"""
+    grid = case["ans"]["grid"]
+    exp = expected_registry(case)
+    for j in range(len(case["hosts"])):
+        for i in range(len(grid)):
+            if grid[i][j] is not None:
+                return exp != (i, j)
+    return False
+
+
 def run(c: Check):
     c.rule = ("random request ASTs (1-3 alternatives x 1-4 terms) printed with random whitespace and built "
-              "programmatically, against random hosts near the request; non-trivial = the request has >=2 terms or a "
-              "multiplier, distinct by (expression, host)")
+              "programmatically, against random hosts near the request, and handed to the real LauncherRegistry.find "
+              "(alternatives as one string, several strings, simple objects, objects built with |, or a mix) over a "
+              "launchers.py with 1-4 hosts aimed at the alternatives; non-trivial = the request has >=2 terms or a "
+              "multiplier, distinct by (expression, host, hosts, groups)")
     c.build()
     c.props()
     n = 1500 if c.quick else 40000
@@ -170,15 +343,22 @@ def run(c: Check):
     if c.replay:
         rp = json.load(open(c.replay))["replay"]
         if "expr" in rp and "host" in rp:
-            cases.append(dict(expr=rp["expr"], host=rp["host"], text=rp.get("text") or print_expr(c.rng, rp["expr"])))
+            cases.append(dict(expr=rp["expr"], host=rp["host"], text=rp.get("text") or print_expr(c.rng, rp["expr"]),
+                              hosts=rp.get("hosts") or [rp["host"]],
+                              groups=rp.get("groups") or [dict(kind="str", n=len(rp["expr"]))]))
         n = 0
     # golden corpus first (minimised earlier failures)
     gold = json.load(open(c_root() / "golden" / "c18.json"))
     for g in gold:
-        cases.append(dict(expr=g["expr"], host=g["host"], text=print_expr(c.rng, g["expr"])))
+        cases.append(dict(expr=g["expr"], host=g["host"], text=print_expr(c.rng, g["expr"]),
+                          hosts=g.get("hosts") or [g["host"]],
+                          groups=g.get("groups") or [dict(kind="str", n=len(g["expr"]))]))
     for _ in range(n):
         e = gen_expr(c.rng)
-        cases.append(dict(expr=e, host=gen_host(c.rng, e), text=print_expr(c.rng, e)))
+        cases.append(dict(expr=e, host=gen_host(c.rng, e), text=print_expr(c.rng, e), hosts=gen_hosts(c.rng, e),
+                          groups=gen_groups(c.rng, len(e))))
+    for case in cases:
+        with_group_texts(c.rng, case)
     ans = run_impl("drive_c18.py", dict(cases=cases), timeout=1200)
     for case, a in zip(cases, ans):
         case["ans"] = a
@@ -192,16 +372,27 @@ def run(c: Check):
         c.count("union:" + ("none" if a["union"] is None else "some"))
         for s in a["single"]:
             c.count("match:" + ("no" if s is None else "yes"))
+        c.count(f"site:hosts={len(case['hosts'])}")
+        c.count("find-args:" + "+".join(sorted({g["kind"] for g in case["groups"]})))
+        exp = expected_registry(case)
+        c.count("registry:" + ("none" if exp is None else f"alternative{exp[0]}-host{exp[1]}"))
+        if order_sensitive(case):
+            c.count("registry:order-of-nesting-matters")
         if nterms >= 2 or any(t.get("mult") is not None for ts in case["expr"] for t in ts):
-            c.nontrivial.add(json.dumps([case["expr"], case["host"]], sort_keys=True))
+            c.nontrivial.add(json.dumps([case["expr"], case["host"], case["hosts"],
+                                         [(g["kind"], g["n"]) for g in case["groups"]]], sort_keys=True))
         oracle(c, case)
-    c.samples = [dict(text=x["text"], host=x["host"], answer=x["ans"]) for x in cases[:3]]
+    c.samples = [dict(text=x["text"], host=x["host"], hosts=x["hosts"], groups=x["groups"], answer=x["ans"])
+                 for x in cases[:3]]
     header = ("From Coq Require Import ZArith List Bool.\nFrom XV Require Import model.Launcher corr.LauncherCorr.\n"
               "Import ListNotations.\nOpen Scope Z_scope.\n")
     bad = c.corr_shards("corr", header, cases, g_case, "check_case")
     c.extra["disagreeing_cases"] = [dict(text=cases[i]["text"], host=cases[i]["host"], answer=cases[i]["ans"]) for i in bad[:5]]
     c.level_assumptions = ["humanfriendly.parse_size / parse_timespan and arpeggio are trusted to behave as probed "
-                           "(decimal units; d/h); the model covers match/union/&/* and the meaning of the request grammar"]
+                           "(decimal units; d/h); the model covers match/union/&/*, the meaning of the request grammar and the search of "
+                           "LauncherRegistry.find",
+                           "the find_launcher function of launchers.py is the harness's: it goes through its hosts in "
+                           "order and answers with the first host the requirement matches, as the documented ones do"]
 
 
 def c_root():
